@@ -19,6 +19,7 @@ class LazyPredicate[T](Predicate[T]):
         self.frame = inspect.currentframe()
         if self.predicate:
             return self.predicate(x)
+        del self.predicate  # a failed lookup is not remembered: a later caller may be able to resolve it
         raise ValueError(f"Could not find predicate with reference {self.ref}")
 
     def __repr__(self) -> str:
